@@ -72,6 +72,8 @@ def _load():
     from .oracles.c01 import C01
     from .oracles.c02 import C02
     from .oracles.c14 import C14
+    from .oracles.c04 import C04, C05
+    from .oracles.c06 import C06, C07
 
     wide = profile()
     faulty = profile(f_zero=0.8, f_infarr=0.3, f_batch0=0.8, qcap=0.7, sched=0.35, renege=0.4, batch=0.4)
@@ -85,6 +87,28 @@ def _load():
     register(Profile("C14", [C14], [(2, wide), (1, faulty), (1, profile(plan={"time": 0.4, "cust": 0.6, "deadlock": 0.0}))],
                      "distinct history digest; non-trivial = >=2 optional features enabled and >=10 events executed",
                      B(60000, 800000)))
+
+
+    NOREROUTE = dict(preempt_opts=[False, "resume", "restart", "resample"],
+                     sched_pre_opts=[False, False, "resume", "restart", "resample"])
+    srv = profile(ordinary_only=True, inf=0.0, zero=0.0, sched=0.35, qcap=0.6, renege=0.3, n=[1, 2, 2, 3], ps=0.0, slot=0.0)
+    register(Profile("C04", [C04], [(2, srv), (1, profile(ordinary_only=True, inf=0.0, sched=0.5, preempt=0.0, qcap=0.7,
+                                                          sched_pre_opts=[False], n=[1, 2, 3], splits=0))],
+                     "distinct history digest; non-trivial = some server served >=2 customers and some customer was blocked while holding its server",
+                     B(40000, 400000)))
+    register(Profile("C05", [C05], [(2, srv), (1, profile(ordinary_only=True, sched=0.5, prio=0.8, preempt=0.7, renege=0.5, cct=0.3, n=[1, 2, 3]))],
+                     "distinct history digest; non-trivial = >=1 customer waited and later started service",
+                     B(40000, 400000)))
+    cap = profile(qcap=0.9, qcap_vals=[INF, 0, 0, 1, 2, 3], syscap=0.4, batch=0.5, baulk=0.4, jockey=0.0, n=[1, 2, 2, 3], **NOREROUTE)
+    register(Profile("C06", [C06], [(1, cap)],
+                     "distinct history digest; non-trivial = >=1 rejection and >=1 admission into a node holding capacity-1",
+                     B(40000, 400000)))
+    blk = profile(restricted=True, n=[2, 2, 3, 4], k=[1, 1, 2], preempt=0.0, sched=0.15, sched_pre_opts=[False], renege=0.1,
+                  jockey=0.0, batch=0.2, horizon=[12.0, 30.0, 40.0], f_infarr=0.05,
+                  route_kinds={"matrix": 0.5, "net": 0.4, "pb": 0.1, "fpb": 0.0})
+    register(Profile("C07", [C07], [(1, blk)],
+                     "distinct history digest; non-trivial = >=1 blocking and >=1 unblocking (cascade depth probes reported)",
+                     B(30000, 300000)))
 
 
 _load()
